@@ -666,6 +666,40 @@ func genC20(e *emitter) {
 	fmt.Fprintf(&b, "/-- `time.Now().Add(-X)` of loadEvents / expireOldEvents, in seconds -/\ndef recorderLoadRetentionSeconds : Nat := %d\ndef recorderExpireRetentionSeconds : Nat := %d\n", loadNs/1000000000, expNs/1000000000)
 	fmt.Fprintf(&b, "def recorderRetentionSubSecondNanos : Nat := %d\n\n", loadNs%1000000000+expNs%1000000000)
 
+	// the deferred save of eventLoop: every saveTimer.Reset(d) and the text of the `<-saveTimer.C` case
+	saveDelayNs := int64(-1)
+	saveCase := "<missing>"
+	nResets := 0
+	if fd, ok := er.funcs["eventLoop"]; ok {
+		ast.Inspect(fd.Body, func(n ast.Node) bool {
+			switch x := n.(type) {
+			case *ast.CallExpr:
+				if er.str(x.Fun) == "saveTimer.Reset" && len(x.Args) == 1 {
+					nResets++
+					if v, ok := er.evalInt(x.Args[0], 0); ok && (saveDelayNs == -1 || saveDelayNs == v) {
+						saveDelayNs = v
+					} else {
+						saveDelayNs = 0
+					}
+				}
+			case *ast.CommClause:
+				if x.Comm != nil && er.str(x.Comm) == "<-saveTimer.C" {
+					var parts []string
+					for _, st := range x.Body {
+						parts = append(parts, er.str(st))
+					}
+					saveCase = strings.Join(parts, " ; ")
+				}
+			}
+			return true
+		})
+	}
+	if saveDelayNs < 0 {
+		saveDelayNs = 0
+	}
+	fmt.Fprintf(&b, "/-- `saveTimer.Reset(d)` in eventLoop (all %d sites agree, else 0), milliseconds -/\ndef recorderSaveDelayMillis : Nat := %d\n", nResets, saveDelayNs/1000000)
+	fmt.Fprintf(&b, "/-- statements of the `case <-saveTimer.C:` arm of eventLoop (go/printer, whitespace-normalised) -/\ndef recorderSaveCaseSrc : List Char := %s.toList\n\n", leanStr(saveCase))
+
 	// vocabulary of proto/eventmon
 	var names []string
 	for n := range pe.consts {
@@ -726,7 +760,7 @@ func genC20(e *emitter) {
 	b.WriteString("]\n\nend KM.Gen\n")
 	e.lean("Events.lean", b.String())
 	e.facts["c20"] = map[string]interface{}{
-		"notifier_chan_cap": chanCap, "load_retention_s": loadNs / 1000000000, "expire_retention_s": expNs / 1000000000,
+		"notifier_chan_cap": chanCap, "save_delay_ms": saveDelayNs / 1000000, "save_case_src": saveCase, "load_retention_s": loadNs / 1000000000, "expire_retention_s": expNs / 1000000000,
 		"eventmon": strs, "sends": sends, "locks": locks, "signing_funcs": sn, "issue_sites": sites,
 	}
 }
